@@ -8,7 +8,7 @@ import (
 
 // closedA assumes a syntactic SUFFICIENT condition for "A does not end inside an open fenced code
 // block, indented code block or HTML block" (branch-free where bytes are symbolic):
-//   - no '`' and no '~' anywhere: no fenced code block can open;
+//   - no run of three '`' or three '~': no fenced code block can open;
 //   - no '<' anywhere: no HTML block can open;
 //   - the last non-blank line holds no TAB and no run of four spaces: whatever containers it sits in,
 //     it cannot be an indented code line (the indentation of a line is one contiguous whitespace run
@@ -16,7 +16,13 @@ import (
 // and, for both documents, no '[' (link reference syntax) and no CR.
 func closedA(a []byte) {
 	for i := range a {
-		vp.Assume(vp.Not(vp.InSet(a[i], "`~<[\r")))
+		vp.Assume(vp.Not(vp.InSet(a[i], "<[\r")))
+	}
+	// no run of three backticks or tildes: no code fence can open (single backticks are welcome: an
+	// unmatched one is ordinary text of a closed paragraph)
+	for i := 0; i+2 < len(a); i++ {
+		vp.Assume(vp.Not(vp.And(a[i] == '`', vp.And(a[i+1] == '`', a[i+2] == '`'))))
+		vp.Assume(vp.Not(vp.And(a[i] == '~', vp.And(a[i+1] == '~', a[i+2] == '~'))))
 	}
 	// find the last non-blank line: this forks on LF/space positions, which the parser decides anyway
 	end := len(a)
@@ -73,7 +79,18 @@ func H_c09_indep() {
 		b = vp.Bytes("b", vp.ParamInt("bn", 1))
 		alphaAssume(b, vp.ParamStr("alphaB", ""))
 	}
-	closedA(a)
+	if vp.ParamInt("trustA", 0) == 1 {
+		// A is a template that is closed by construction (an HTML block or fence that ends inside A); its
+		// symbolic bytes are kept away from everything that could reopen it
+		if w := vp.ParamInt("wA", 0); w > 0 {
+			pa := vp.ParamInt("posA", 0)
+			for i := pa; i < pa+w && i < len(a); i++ {
+				vp.Assume(vp.Not(vp.InSet(a[i], "`~<>[]\r\n-?!")))
+			}
+		}
+	} else {
+		closedA(a)
+	}
 	for i := range b {
 		vp.Assume(vp.Not(vp.InSet(b[i], "[\r")))
 	}
@@ -86,8 +103,13 @@ func H_c09_indep() {
 	doc = append(doc, "\n# h\n\n"...)
 	doc = append(doc, b...)
 	vp.Observe("src", doc)
+	// "the rendering of A" is that of A as it stands in the joined document, i.e. with its line ended
+	aNL := a
+	if len(a) > 0 && a[len(a)-1] != '\n' {
+		aNL = append(append([]byte(nil), a...), '\n')
+	}
 	var oa, ob, od bytes.Buffer
-	e1 := m.Convert(a, &oa)
+	e1 := m.Convert(aNL, &oa)
 	e2 := m.Convert(b, &ob)
 	e3 := m.Convert(doc, &od)
 	vp.Assert(e1 == nil && e2 == nil && e3 == nil, "conversion returned an error")
@@ -135,6 +157,12 @@ var c09Refs = []c09Ref{
 	{"- [\x01a b\x02]\n\n> [x][\x01a b\x02]\n", "[A  B]: /u\n"},
 	{"# [\x01foo\x02]\n\n[\x01foo\x02]\n===\n\n    [foo]\n", "[foo]: /u\n[foo]: /second\n"},
 	{"[\x01ß\x02] [\x01ss\x02] [undefined] [\x01foo\x02\n", "[SS]: /u\n[foo]: /v\n"},
+	{"[\x01foo\x02]\n\n<!DOCTYPE html>\n", "[foo]: /u\n"},
+	{"[\x01foo\x02]\n\n<?php x ?>\n", "[foo]: /u\n"},
+	{"[\x01foo\x02]\n\n<!-- c -->\n", "[foo]: /u\n"},
+	{"[\x01foo\x02]\n\n<![CDATA[x]]>\n", "[foo]: /u\n"},
+	{"[\x01foo\x02]\n\n```\nx\n```\n", "[foo]: /u\n"},
+	{"[\x01foo\x02]\n\n<pre>x</pre>\n", "[foo]: /u\n"},
 }
 
 // H_c09_refs: conv(defs ⊕ blank ⊕ X) == conv(X ⊕ blank ⊕ defs).
